@@ -1362,31 +1362,34 @@ func (c *checker) partWire() {
 		}
 	}
 	// (e3) redirect chains on the wire: policy x every script of per-attempt chains
-	e3Status := []string{"302", "307"}
-	e3Finals := []string{"200", "503", "rdclose"}
-	e3Policies := []string{"r-deny-host", "r-deny-cidr", "r-rebind", "r-off"}
-	e3Max := []int{1}
-	if r.Thorough() {
-		e3Status = []string{"301", "302", "303", "307", "308"}
-		e3Finals = []string{"200", "200c", "503", "503c", "404", "rdclose", "partial"}
-		e3Policies = []string{"r-deny-host", "r-deny-cidr", "r-allow-list", "r-rebind", "r-off"}
-		e3Max = []int{1, 2}
-	}
-	e3Alpha := append([]string{}, e3Finals...)
-	for _, st := range e3Status {
-		for _, f := range e3Finals {
-			e3Alpha = append(e3Alpha, st+">next:"+f, st+">same:"+f)
+	e3Alphabet := func(statuses, finals, extra []string) []string {
+		alpha := append([]string{}, finals...)
+		for _, st := range statuses {
+			for _, f := range finals {
+				alpha = append(alpha, st+">next:"+f, st+">same:"+f)
+			}
+			alpha = append(alpha, st+">refused", st+">next:307>refused", st+">none", st+">same:"+st+">next2:200")
 		}
-		e3Alpha = append(e3Alpha, st+">refused", st+">next:307>refused", st+">none", st+">same:"+st+">next2:200")
+		return append(alpha, extra...)
 	}
+	type e3Job struct {
+		max      int
+		alpha    []string
+		policies []string
+	}
+	small := e3Alphabet([]string{"302", "307"}, []string{"200", "503", "404", "rdclose"}, nil)
+	e3Jobs := []e3Job{{1, small, []string{"r-deny-host", "r-deny-cidr", "r-rebind", "r-off"}}}
 	if r.Thorough() {
-		e3Alpha = append(e3Alpha, "307>garbage", "307>next:302>same:503", "302>next:308>next2:307>refused")
+		all := []string{"r-deny-host", "r-deny-cidr", "r-allow-list", "r-rebind", "r-off"}
+		large := e3Alphabet([]string{"301", "302", "303", "307", "308"}, []string{"200", "200c", "503", "404", "rdclose", "partial"},
+			[]string{"307>garbage", "307>next:302>same:503", "302>next:308>next2:307>refused"})
+		e3Jobs = []e3Job{{1, large, all}, {2, small, []string{"r-deny-host", "r-off"}}}
 	}
-	for _, max := range e3Max {
-		for _, p := range e3Policies {
+	for _, j := range e3Jobs {
+		for _, p := range j.policies {
 			pol := wireRedirPolicies[p]
 			// terminal by the statement: an attempt whose reference class is not "retryable"
-			scripts := wireScripts(e3Alpha, func(ch string) bool {
+			scripts := wireScripts(j.alpha, func(ch string) bool {
 				segs := strings.Split(ch, ":")
 				for i, seg := range segs {
 					_, label, redirect := strings.Cut(seg, ">")
@@ -1398,9 +1401,9 @@ func (c *checker) partWire() {
 					}
 				}
 				return true
-			}, max)
+			}, j.max)
 			for _, sc := range scripts {
-				cases = append(cases, WireCase{Part: "e3", Max: max, Policy: p, Script: sc})
+				cases = append(cases, WireCase{Part: "e3", Max: j.max, Policy: p, Script: sc})
 			}
 		}
 	}
@@ -1457,7 +1460,7 @@ func (c *checker) partWire() {
 		"(e1) every script of wire behaviours {answer 2xx/503 and keep the connection (with and without body), answer with Connection: close, read the request and close, close unread, truncated header block} "+
 		"with retry.max+1 elements (shorter when an element is terminal by the statement), without and with an earlier exchange that leaves an idle keep-alive connection (thorough: also requests without a body); "+
 		"(e2) egress policy x every script of per-attempt resolver answers {allowed address (target answers 200/503), denied address, lookup errors, empty answers} for a host-name target; "+
-		"(e3) egress policy {redirects on + deny host / deny cidr / dns_rebind_protection (thorough: + allow list), redirects off} x every script of per-attempt redirect chains {direct answer; 302/307 (thorough: 301..308) to another allowed host or to the same host (reused connection), then 200/503/read-and-close (thorough: + Connection: close, 404, truncated answer); to the refused host; to an allowed host that redirects to the refused one; without Location; two allowed hops} - all host names are connected to the one loopback target, which answers by (Host, URI). "+
+		"(e3) egress policy {redirects on + deny host / deny cidr / dns_rebind_protection (thorough: + allow list), redirects off} x every script of per-attempt redirect chains {direct answer; 302/307 (thorough: 301..308) to another allowed host or to the same host (reused connection), then 200/503/404/read-and-close (thorough: + Connection: close, truncated answer); to the refused host; to an allowed host that redirects to the refused one; without Location; two allowed hops} - all host names are connected to the one loopback target, which answers by (Host, URI). "+
 		"distinct_nontrivial gains (behaviour, fresh/reused connection, attempt<=max?, settlement), (policy, resolver answer, attempt<=max?, sent?, settlement) and (policy, redirects on/off, where the walk ends, what ends it, attempt<=max?, settlement) classes")
 	r.Assume("part e: the transport is a clone of http.DefaultTransport without proxy (what run() uses when tracing is off); HTTP/1.1 over plain TCP on loopback only (no TLS, no HTTP/2, no proxy, no otelhttp wrapper); " +
 		"e2 connects the non-existent host name to the loopback target through Transport.DialContext, so the transport's own name resolution at dial time is not exercised (the egress check has no dial hook of its own; check and dial resolve independently, that gap is outside C06)")
